@@ -48,7 +48,8 @@ CHECKS = {
                      "Four programs (moves/returns, arithmetic, array length/index/slice bounds, branches) are run for every ordered pair "
                      "of the 64 registers, so every register of every bank is exercised in every operand role; the state after the set-up "
                      "subroutine is compared with a literal (registers nothing wrote are undefined), which anchors the reference state "
-                     "that is otherwise read from the executor.",
+                     "that is otherwise read from the executor. 64 programs declare an array address again with another length (shorter, equal, "
+                     "longer; filled or not; in one or two subroutines) with ret_arr before and after.",
                 note="reference semantics of appendix B; 'unspecified' cases (negative indices, undefined operands) excluded and counted; "
                      "quantum hooks and wait polling are harness overrides of no-op/abstract methods",
                 ref="3/C04"),
@@ -120,7 +121,8 @@ CHECKS = {
                      "after every operation until the state graph closes (2-65 states), i.e. for flushed histories of any length; "
                      "sequential keep without a post routine (handle used at once) is part of the alphabet; two connections alive in one "
                      "process must each agree with their own controller, also with their EPR contexts nested in each other; in every "
-                     "explored state with nothing pending the connection is closed: no handle stays active, the controller holds nothing.",
+                     "explored state with nothing pending the connection is closed: no handle stays active, the controller holds nothing. "
+                     "Qubit.reset() is part of the alphabet (the qubit stays allocated under its id).",
                 note="depth 3-5 quick / 5-8 thorough per budget (state caps reported); EPR responses delivered on demand, all Phi+; open "
                      "known findings for NV-only SDK defects (non-sequential NV context deadlock, hard-coded NV memory ids, carbon-carbon "
                      "gate through an unallocated electron)",
@@ -148,7 +150,9 @@ CHECKS = {
                      "enum-typed fields are enum members and request_to_qlink_1_0 accepts K and M requests with matching fields. With "
                      "responses carrying all-distinct field values, every Qubit.entanglement_info field, the qubit-to-pair association, "
                      "every EprKeepResult field and every EprMeasureResult field reads the same-named field of its own pair's response, "
-                     "with the responses delivered in netqasm's own type and as qlink-interface 1.0 objects. "
+                     "with the responses delivered in netqasm's own type and as qlink-interface 1.0 objects. Measure-directly and "
+                     "state-preparation requests are also made for more pairs than the application has qubits; in the harness network node "
+                     "names differ from role names and role names also name other nodes. "
                      "The socket registration recorded by the stack must be (local id, remote node, remote id) as opened, with local id != remote id. "
                      "Every seventh request case is repeated with an EPRSocket object that served a connection of another network before.",
                 note="delivery schedule fixed to 'next pair when a wait blocks' (interleavings are C12); measurement_outcome compared only "
